@@ -925,6 +925,66 @@ def gen_case(rng, kind, idx=None):
                 world[key] = dict(world[key])
                 world[key][assoc] = rng.choice([r.format(T9=rng.choice(['X0', 'X1', 'Vec<X0>'])) for r in rows]) if rng.random() < 0.75 else rng.choice(vals)
         return Case(kind, 'K', '', blocks, probes, world)
+    elif kind == 'dupcols':
+        # a family over (T, U) with two key columns: on one column the payloads are a specific
+        # and a general instance of each other (Option<GA> vs Option<P>), the other column tells
+        # the blocks apart; a member under (V, V) can be keyed on either column, and only the
+        # distinguishing column is a usable key whatever the order of the blocks
+        col = pk.choice([0, 1])
+        specific_first = pk.choice([True, False])
+        wrapk = pk.choice(['Option<%s>', 'Vec<%s>', '(%s, GC)'])
+        g = rng.sample(GROUPS, 3)
+        cols = ['{T0}', '{T1}']
+        pl = lambda: rng.choice(['inline', 'where'])
+        def mk(payload, gi, tag, extra):
+            slots = mk_slots(rng, ['T0', 'T1'] + extra)
+            order = list(slots); rng.shuffle(order)
+            bounds = [(cols[col], 'D', {'G': payload}, pl()), (cols[1 - col], 'D', {'G': g[gi]}, pl())]
+            if rng.random() < 0.5:
+                bounds.reverse()
+            return Block({x: slots[x] for x in order}, None, HEADERS['pair'][0], bounds, tag)
+        spec = mk(wrapk % 'GA', 0, 'bs', [])
+        gen = mk(wrapk % '{T9}', 1, 'bg', ['T9'])
+        slots = mk_slots(rng, ['T0'])
+        dup = Block(slots, None, HEADERS['dup'][0], [('{T0}', 'D', {'G': g[2]}, pl())], 'bd')
+        blocks = ([spec, gen] if specific_first else [gen, spec])
+        blocks.insert(pk.choice([2, 0, 1]), dup)
+        headers = [HEADERS['dup'] if b is dup else HEADERS['pair'] for b in blocks]
+        for i, b in enumerate(blocks):
+            b.tag = 'b%d' % i
+        probes, world = build_world_and_probes(rng, blocks, headers, nprobes=10, impl_rate=0.95)
+        vals = [wrapk % 'GA', wrapk % 'GB', g[0], g[1], g[2], g[2]]
+        for key in list(world):
+            if world[key] is not None:
+                world[key] = {'G': rng.choice(vals)}
+        return Case(kind, 'K', '', blocks, probes, world)
+    elif kind == 'tworoots_overlap':
+        # as `tworoots`, but the common specialisation repeats a left block's condition on the
+        # Vec it fixes: (W<T>, U) where U: D<G = g>  vs  (W<T>, Vec<U>) where Vec<U>: D<G = g>.
+        # D2 is implemented for no wrapper, so the two roots' main impls do not collide.
+        lh, sh, wrap = pk.choice([('vecpair', 'vecvec', 'Vec<{T0}>'), ('optpair', 'optvec', 'Option<{T0}>')])
+        nleft, nright = pk.choice([(1, 1), (2, 1), (1, 2), (2, 2)])
+        pl = lambda: rng.choice(['inline', 'where'])
+        gl = rng.sample(GROUPS, nleft); gr = rng.sample(GROUPS, 2)
+        blocks, headers = [], []
+        for i in range(nleft):
+            blocks.append(Block(mk_slots(rng, ['T0', 'T1']), None, HEADERS[lh][0], [('{T1}', 'D', {'G': gl[i]}, pl())], 'l%d' % i)); headers.append(HEADERS[lh])
+        for i in range(nright):
+            blocks.append(Block(mk_slots(rng, ['T0', 'T1']), None, HEADERS['pairvec'][0], [('{T0}', 'D2', {'G': gr[i]}, pl())], 'r%d' % i)); headers.append(HEADERS['pairvec'])
+        blocks.append(Block(mk_slots(rng, ['T0', 'T1']), None, HEADERS[sh][0], [('Vec<{T1}>', 'D', {'G': gl[0]}, 'where')], 's')); headers.append(HEADERS[sh])
+        order = list(range(len(blocks)))
+        if pk.choice([False, True]):
+            rng.shuffle(order)
+        blocks = [blocks[i] for i in order]; headers = [headers[i] for i in order]
+        for i, b in enumerate(blocks):
+            b.tag = 'b%d' % i
+        probes, world = build_world_and_probes(rng, blocks, headers, nprobes=8, impl_rate=0.9, prefer_rate=0.6)
+        for key in list(world):
+            if key[1] == 'D2' and (key[0].startswith('Vec<') or key[0].startswith('Option<')):
+                world[key] = None      # D2 for no wrapper at all
+            if key[1] == 'D' and key[0].startswith('Vec<') and rng.random() < 0.7:
+                world[key] = {'G': gl[0]}
+        return Case(kind, 'K', '', blocks, probes, world)
     elif kind == 'tworoots':
         # two incomparable headers with a common specialisation and no common generalisation:
         # (W<T>, U) keyed on U: D   |   (T, Vec<U>) keyed on T: D2   |   (W<T>, Vec<U>) keyed on W<T>: D2
